@@ -295,3 +295,18 @@ def check(prog: Program, rep):
     if python_arithmetic(prog, rep, "C16.R7", [m for m in prog.cls("MinErrorFlow").methods.values()],
                          "the bound of the variables (w_max * |E|) comes out too small or negative and the reported error is astronomically large") < 2:
         raise AnalysisError("MinErrorFlow: the variable bound / the recomputed error were not found")
+    # epsilon / lambda reach solver expressions: stored as Python floats
+    _init = prog.own_method("MinErrorFlow", "__init__")
+    for attr, why in (("different_flow_values_epsilon", "the budget row (1 + eps) * objective"), ("sparsity_lambda", "the sparsity term of the objective")):
+        sts = [st for st in ast.walk(_init.node) if isinstance(st, ast.Assign) and any(norm(t) == f"self.{attr}" for t in st.targets)]
+        key = f"MinErrorFlow.__init__:{attr}-converted"
+        if not sts:
+            raise AnalysisError(f"MinErrorFlow.__init__: self.{attr} is not stored")
+        raw = [st for st in sts if not (isinstance(st.value, ast.Constant) or (isinstance(st.value, ast.Call) and dotted(st.value.func) in ("float", "int")))]
+        # a raw store is fine when a later store on the same paths converts it (None / 0 handling): every path must end in a converted or constant value
+        last_raw = [st for st in raw if not any(o.lineno > st.lineno and o not in raw for o in sts)]
+        if raw and len(raw) == len(sts) or last_raw:
+            rep.violation("C16.R7", key, f"`{norm((last_raw or raw)[0])}` keeps the caller's value, which {why} multiplies with solver variables: np.float32(0.5) stays a numpy scalar under "
+                          "NumPy 2 and solve() raises AttributeError / 'Unexpected parameters.'", _init.loc((last_raw or raw)[0]))
+        else:
+            rep.ok("C16.R7", key, f"self.{attr} is stored as a Python float (or None / a constant)", _init.loc(sts[-1]))
